@@ -4,12 +4,21 @@ import glob, json, os, re
 HERE = os.path.dirname(os.path.abspath(__file__)); VERIF = os.path.dirname(HERE)
 rows = ["| seeded change | property | what it does | needs | caught by |", "|---|---|---|---|---|"]
 for d in sorted(glob.glob(os.path.join(VERIF, "seeded", "*"))):
+    if not os.path.exists(os.path.join(d, "meta.json")):
+        continue
     m = json.load(open(os.path.join(d, "meta.json")))
     esc = lambda s: str(s).replace("|", "\\|").replace("\n", " ")
     caught = ", ".join(m.get("caught_by", [])) or "**missed**"
     rows.append(f"| {os.path.basename(d)} | {m.get('property','')} | {esc(m.get('summary',''))[:220]} | {esc(m.get('needs',''))[:160]} | {caught} |")
+hrows = ["| rewrite | what it does | functions | checks run | alarms |", "|---|---|---|---|---|"]
+for d in sorted(glob.glob(os.path.join(VERIF, "seeded", "harmless", "*"))):
+    m = json.load(open(os.path.join(d, "meta.json")))
+    esc = lambda s: str(s).replace("|", "\\|").replace("\n", " ")
+    hrows.append(f"| {os.path.basename(d)} | {esc(m.get('summary',''))[:220]} | {esc(', '.join(m.get('functions', [])))[:120]} | {len(m.get('checks', {}))} | {', '.join(m.get('alarms', [])) or 'none'} |")
 p = os.path.join(VERIF, "DESIGN.md")
 s = open(p).read()
+if "<!-- BEGIN harmless -->" in s:
+    s = re.sub(r"<!-- BEGIN harmless -->.*?<!-- END harmless -->", "<!-- BEGIN harmless -->\n" + "\n".join(hrows) + "\n<!-- END harmless -->", s, flags=re.S)
 s = re.sub(r"<!-- BEGIN seeded -->.*?<!-- END seeded -->", "<!-- BEGIN seeded -->\n" + "\n".join(rows) + "\n<!-- END seeded -->", s, flags=re.S)
 open(p, "w").write(s)
 print(len(rows) - 2, "seeded changes listed")
